@@ -188,6 +188,47 @@ func mayRunInParallel(a, b string) bool {
 	return true
 }
 
+// shallowCopyOfShared: al is a local variable holding a struct of a library type (mp4, mpd, ...) that was
+// assigned, as a whole, the pointee of a pointer (x := *p): the copy shares every nested object with *p.
+// Returns p.
+func shallowCopyOfShared(e *e2, al *ssa.Alloc) ssa.Value {
+	if al.Referrers() == nil {
+		return nil
+	}
+	n := namedStructOf(al.Type())
+	if n == nil || n.Obj().Pkg() == nil || isRepoPkgPath(n.Obj().Pkg().Path()) {
+		return nil
+	}
+	if !carriesRefsType(n.Underlying()) {
+		return nil
+	}
+	for _, ref := range *al.Referrers() {
+		st, ok := ref.(*ssa.Store)
+		if !ok || st.Addr != ssa.Value(al) {
+			continue
+		}
+		if ld, ok := st.Val.(*ssa.UnOp); ok && ld.Op == token.MUL {
+			if _, isAlloc := ld.X.(*ssa.Alloc); !isAlloc {
+				return ld.X
+			}
+		}
+	}
+	return nil
+}
+
+func carriesRefsType(t types.Type) bool {
+	st, ok := t.(*types.Struct)
+	if !ok {
+		return false
+	}
+	for i := 0; i < st.NumFields(); i++ {
+		if isPointerLike(st.Field(i).Type()) {
+			return true
+		}
+	}
+	return false
+}
+
 // copiedStateStruct: addr is &v.f... for a local variable v of a state struct type that is assigned,
 // as a whole, a value read directly from memory (map/slice element, field, dereference): returns that value.
 func copiedStateStruct(e *e2, addr ssa.Value) ssa.Value {
@@ -245,6 +286,11 @@ func (e *e2) isStateType(t types.Type) (string, bool) {
 func (e *e2) originCompute(v ssa.Value, depth int) string {
 	switch x := v.(type) {
 	case *ssa.Alloc:
+		if src := shallowCopyOfShared(e, x); src != nil {
+			if o := e.origin(src, depth+1); strings.HasPrefix(o, "shared") {
+				return o // a shallow copy of a shared library object: nested objects are the shared ones
+			}
+		}
 		// objects built at start-up are handed to the handlers and live as long as the server
 		if _, serving := e.classOf[x.Parent()]; !serving {
 			return "shared:startup"
@@ -523,6 +569,12 @@ func isDecoderAlias(callee *ssa.Function) bool {
 
 func (e *e2) stateFieldOfAddr1(addr ssa.Value, depth int) (field string, through bool, ok bool) {
 	switch x := addr.(type) {
+	case *ssa.Alloc:
+		if src := shallowCopyOfShared(e, x); src != nil {
+			if f, _, ok := e.stateFieldOfAddr(src, depth+1); ok {
+				return f, true, true
+			}
+		}
 	case *ssa.FieldAddr:
 		if tid, isState := e.isStateType(x.X.Type()); isState {
 			_ = tid
@@ -834,6 +886,22 @@ func (e *e2) collect() {
 	for _, fn := range fns {
 		ls := e.locksets(fn)
 		add := func(in ssa.Instruction, addr ssa.Value, write bool) {
+			// a load/store of a local variable's own field is not an access to shared memory,
+			// even when the variable holds a (shallow) copy of a shared object
+			if _, isStoreOrLoad := in.(*ssa.Store); isStoreOrLoad {
+				if base, _ := resolveAddr(addr); base != nil {
+					if _, isLocal := base.(*ssa.Alloc); isLocal {
+						return
+					}
+				}
+			}
+			if ld, isLoad := in.(*ssa.UnOp); isLoad && ld.Op == token.MUL {
+				if base, _ := resolveAddr(addr); base != nil {
+					if _, isLocal := base.(*ssa.Alloc); isLocal {
+						return
+					}
+				}
+			}
 			e.payloadFlag = false
 			f, through, ok := e.stateFieldOfAddr(addr, 0)
 			if !ok {
@@ -963,6 +1031,10 @@ func knownMutator(callee *ssa.Function, argIdx int) bool {
 		return argIdx == 0 // encrypts the sample data in place
 	case n == "(*bytes.Buffer).Reset", n == "(*bytes.Buffer).Write", n == "(*bytes.Buffer).WriteString", n == "(*bytes.Buffer).Truncate":
 		return argIdx == 0
+	case strings.HasPrefix(n, "(encoding/binary.bigEndian).Put"), strings.HasPrefix(n, "(encoding/binary.littleEndian).Put"):
+		return argIdx == 1 // receiver is arg 0, the destination slice arg 1
+	case n == "github.com/Eyevinn/mp4ff/mp4.InitProtect":
+		return argIdx == 0 // rewrites the sample entries of the init segment in place
 	case strings.HasPrefix(n, "(*github.com/Eyevinn/dash-mpd/mpd.") && argIdx == 0:
 		m := callee.Name()
 		return strings.HasPrefix(m, "Append") || strings.HasPrefix(m, "Set") || strings.HasPrefix(m, "Add")
